@@ -15,7 +15,7 @@ from harness import refcodec as R
 from harness.memstream import connect_pair
 
 META = {
-    "level": "proof+differential",
+    "level": "proof",
     "level_text": "props/C02.v proves, for all operation kinds, names, operand lists and class shapes, that the request a netref builds (routing table "
                   "regenerated from netref.py) is answered by a handler (bodies regenerated from protocol.py) that applies exactly the operation Python "
                   "would apply to the target, with the same operands, under every configuration that permits the names involved; that whole operation "
@@ -410,11 +410,11 @@ def snap(o, env, memo=None, depth=0):
         return ("str", norm_text(o, env))
     if t is slice:
         return ("slice", snap(o.start, env, memo, depth + 1), snap(o.stop, env, memo, depth + 1), snap(o.step, env, memo, depth + 1))
-    if id(o) in memo:
-        return ("cycle", memo[id(o)])
+    if id(o) in memo:                       # an ancestor: a real cycle; named by how far up it is (independent of traversal order)
+        return ("cycle", depth - memo[id(o)])
     if depth > 12:
         return ("deep",)
-    memo[id(o)] = len(memo)
+    memo[id(o)] = depth
     try:
         rec = lambda x: snap(x, env, memo, depth + 1)
         if t in (tuple, list, collections.deque):
@@ -467,7 +467,7 @@ def snap(o, env, memo=None, depth=0):
             return ("memoryview", bytes(o))
         return ("object", t.__module__, t.__qualname__)
     finally:
-        pass
+        del memo[id(o)]
 
 
 ITERATOR_TYPES = {"list_iterator", "list_reverseiterator", "tuple_iterator", "set_iterator", "dict_keyiterator", "dict_valueiterator",
@@ -644,7 +644,12 @@ def permitted(cfg, nd):
 def operand(side, spec):
     if "slot" in spec:
         return side.slots[spec["slot"]]
-    return mk_value(spec, side.env)
+    v = mk_value(spec, side.env)
+    if not isinstance(side, ProxySide):
+        # what the target receives is the value rebuilt by the serializer: equal (C04), but a frozenset rebuilt from its own
+        # iteration order may iterate (and print) in another order than the original; the twin gets the same rebuilt value
+        v = brine.load(brine.dump(v))
+    return v
 
 
 def perform(side, op, proxy):
@@ -829,6 +834,31 @@ def is_refusal(e):
     return isinstance(e, AttributeError) and "cannot access" in str(e)
 
 
+def address_hashed(e):
+    t = type(e)
+    if t in (tuple, frozenset):
+        return any(address_hashed(x) for x in e)
+    if t in (float, complex):
+        return e != e
+    return not brine.dumpable(e) and not isinstance(e, Vec)
+
+
+def address_ordered(o):
+    """a set (or an iterator over one) holding elements hashed by address: its iteration order on the target and on the twin are
+    unrelated, so nothing order-dependent can be compared"""
+    try:
+        if isinstance(o, (set, frozenset)):
+            elems = list(o)
+        elif type(o).__name__ == "set_iterator":
+            import copy
+            elems = list(copy.copy(o))
+        else:
+            return False
+    except Exception:
+        return False
+    return any(address_hashed(e) for e in elems)
+
+
 def hash_is_address_based(twin_obj):
     """hash() of the twin and of the target are unrelated numbers when the type hashes by address (the twin is another object)"""
     return not isinstance(twin_obj, Vec)
@@ -856,6 +886,9 @@ def run_case(ctx, case, collect=None):
             if max(slot_refs(op)) >= len(w.T.slots):
                 continue
             twin_obj = w.T.slots[op[1]]
+            if address_ordered(twin_obj):
+                ctx.count("stopped:set-ordered-by-addresses")
+                return sigs
             nd = needs(op, twin_obj)
             if op[0] in ("isinstance", "classof") and cfg != "classic":
                 nd = None        # the class of an object whose type the caller cannot import is fetched as the attribute __class__
@@ -954,8 +987,9 @@ FAMILIES = {
     "getattr:proxy-local-name":
         "reading a name in netref.LOCAL_ATTRS gives the proxy's own attribute, not the target's",
     "netref-class:methods-the-target-type-lacks":
-        "the proxy's class defines a special method the target's type does not (BaseNetref.__hash__ ..., methods of `type` on the cached "
-        "built-in classes), so protocol queries and operator fallbacks answer differently",
+        "the proxy's class is not shaped like the target's type: it defines special methods the type lacks (methods of `type` on the cached "
+        "built-in classes: __call__, __or__, __ror__ ...) and, being written in Python, fills C-level slots the type leaves empty "
+        "(a sq_item-only sequence looks like a mapping to `bytes % x`), so operator fallbacks and protocol checks in C answer differently",
     "buffer-protocol:target-memory-not-reachable":
         "an operation that reads the target through the C buffer protocol fails on the proxy",
     "buffiter:getitem-only-iterable":
@@ -982,6 +1016,8 @@ def classify(op, rp, rt, twin_obj, methods=()):
         return "item-index-beyond-ssize_t:slot-wrapper-raises-OverflowError"
     if k in ("binop", "rbinop", "ibinop") and extra_methods(["__%s__" % op[2], "__r%s__" % op[2], "__%s__" % op[2][1:], "__i%s__" % op[2]]):
         return "netref-class:methods-the-target-type-lacks"
+    if k == "rbinop" and op[2] == "mod" and "imm" in op[3] and type(mk_value(op[3], {})) in (bytes, str) and has_special(T, "__getitem__"):
+        return "netref-class:methods-the-target-type-lacks"      # C code takes the proxy for a mapping: its class defines __getitem__ in Python
     if T is bytearray and ((k == "rbinop" and "imm" in op[3]) or (k == "func" and op[2] in ("bytes", "bjoin", "int", "float"))):
         return "buffer-protocol:target-memory-not-reachable"
     if k == "buffiter" and not has_special(T, "__iter__") and has_special(T, "__getitem__"):
@@ -1525,6 +1561,11 @@ def correspond(ctx, model, facts, records):
             ctx.tie_broken("correspondence:buffiter", "op %r: model %r" % (rec["op"], out))
             continue
         yielded, left, counts = out[1]
+        if not hasattr(rec["twin_type"], "__iter__") and list(rec["fetches"]) == []:
+            # iterable only through __getitem__: iter() builds a local iterator over the proxy, there is nothing to buffer
+            # (the repaired buffiter yields from it directly; the model's chunk schedule is about remote iterators)
+            ctx.count("buffiter:local-sequence-iterator")
+            continue
         if len(yielded) != n or left != 0 or list(counts) != list(rec["fetches"]):
             ctx.tie_broken("correspondence:buffiter", "op %r on %d items: model counts %r left %r, implementation asked %r" % (rec["op"], n, counts, left, rec["fetches"]))
 
@@ -1670,22 +1711,13 @@ def replay(ctx, rep):
     model = model if model.available() else None
     facts = tree_facts()
     if "buffiter_params" in case:
-        n, chunk, factor, maxc = case["buffiter_params"]
-
-        class One(object):
-            def choice(self, l): return l[0]
-            def random(self): return 0.0
-        # replays exactly these parameters
-        w_cases = [(n, chunk, factor, maxc)]
-        _replay_buffiter(ctx, model, w_cases)
+        replay_buffiter(ctx, case["buffiter_params"])
     elif "ops" in case:
         check_cases(ctx, model, facts, [{"cfg": case["cfg"], "target": case["target"], "ops": case["ops"]}])
 
 
-def _replay_buffiter(ctx, model, params):
-    class Fixed(object):
-        def __init__(self, p): self.p, self.i = p, 0
-    n, chunk, factor, maxc = params[0]
+def replay_buffiter(ctx, params):
+    n, chunk, factor, maxc = params
     w = World("classic", ["list", []])
     try:
         target = iter(list(range(n)))
